@@ -204,6 +204,20 @@ def generate(run_seed, tier='quick'):
     specs = _data_specs(rng, kind, K, D, F, N, E)
     max_it = 50 if thorough else 30
     n = int(rng.randint(1, max_it + 1)) if rng.randint(3) else int(rng.randint(1, 9))
+    many_channels = kind == 'cwmm' and rng.randint(200) == 0
+    if many_channels:
+        # many channels, very many nearly isotropic observations: the small
+        # concentrations (< 1) that only large N can produce
+        K, F = 2, 0
+        opts = _gen_opts(rng, kind, F)
+        D = int(_choice(rng, [10, 12, 16]))
+        N = int(rng.randint(20000, 60000))
+        specs = _data_specs(rng, kind, K, D, F, N, E)
+        specs['obs'] = {'kind': 'cdiffuse', 'shape': [N, D], 'K': K,
+                        'seed': int(rng.randint(2 ** 31)), 'layout': 'C',
+                        'snr': float(_choice(rng, [0.003, 0.01, 0.03]))}
+        specs.pop('saliency', None)
+        n = int(rng.randint(6, 13))
     trainer_kwargs = {}
     if kind == 'cwmm':
         # spline_markers stays at its default: the Watson concentration update
@@ -213,9 +227,11 @@ def generate(run_seed, tier='quick'):
         trainer_kwargs = _choice(rng, [{}, {}, {'max_concentration': 100},
                                        {'max_concentration': 300}]
                                  + ([{'max_concentration': 700}] if D <= 7 else []))
+    if many_channels:
+        trainer_kwargs = {}
     ops = []
     # earlier history on the shared trainer
-    for _ in range(int(_choice(rng, [0, 0, 1, 2, 3, 5]))):
+    for _ in range(0 if many_channels else int(_choice(rng, [0, 0, 1, 2, 3, 5]))):
         if rng.randint(4) == 0:
             ops.append({'op': 'draws', 'k': int(rng.randint(1, 50))})
         else:
